@@ -27,6 +27,7 @@ func C10(p *engine.Prog, r *engine.Report) {
 	c10R5(p, r)
 	c10R6(p, r)
 	c10R7(p, r)
+	undelegationsFlowRule(p, r, "C10-R7")
 }
 
 func c10R1(p *engine.Prog, r *engine.Report, consts map[int64]string, nob map[int64]bool) {
